@@ -23,7 +23,7 @@ func init() {
 			"(f) the node is offered the worker's whole payload, directly or as the sub-slices [offset:offset+entries] of Scatter's own callback parameters; (g) the semaphore is released by defer after a successful Acquire; " +
 			"(h) classification helpers return nil only on arms guarded by a server-type test (the tolerated (server, message) pairs are extracted and reported, not frozen); " +
 			"(i) util.Scatter starts `workers` goroutines, its channels have capacity `workers` and its collector performs `workers` receives without early exit. " +
-			"Added with the third seeding round: (f, extended) once the semaphore is held every path of a worker calls its node; (i, extended) Scatter's worker count is ceil(inputLen/extent). Added with the fourth seeding round: (k) no errgroup context in the submitter; (l) case-folded texts are searched for constants of the same case. Added with the fifth seeding round: (m) the fields of the structure that decodes a node's indexed-failure answer have the JSON types the node sends. NOT decided: lost-wakeup timing of the condition variable, extent arithmetic of Scatter, behaviour when concurrency < nodes, wall-clock bounds.",
+			"Added with the third seeding round: (f, extended) once the semaphore is held every path of a worker calls its node; (i, extended) Scatter's worker count is ceil(inputLen/extent). Added with the fourth seeding round: (k) no errgroup context in the submitter; (l) case-folded texts are searched for constants of the same case. Added with the fifth seeding round: (m) the fields of the structure that decodes a node's indexed-failure answer have the JSON types the node sends. Added with the sixth seeding round and the false-alarm regression: (n) an entry and its worker name one <kind>Submitters field; (y) C19.8 (one path per component request) is taken over; (g, restated) a successful Acquire is followed by a Release (deferred or explicit) on every path. NOT decided: lost-wakeup timing of the condition variable, extent arithmetic of Scatter, behaviour when concurrency < nodes, wall-clock bounds.",
 		Technique: "template conformance of sibling implementations on SSA (roles bound by types and call resolution), AST loop-exit analysis, guard/edge-deletion queries, error-nilness analysis of classification helpers, provenance of goroutine arguments",
 		Rule:      "obligations (a)-(g) per submitter entry/worker pair, (h) per classification helper, (i) for Scatter",
 	})
@@ -66,6 +66,28 @@ func runC08(p *core.Prog, r *core.Report, tier string) {
 		E, W, g := pr.entry, pr.worker, pr.goInstr
 		names = append(names, E.Name())
 		base := core.FnKey(E)
+		// (n) one kind of submission talks about one set of nodes: the entry and its worker name a single
+		// <kind>Submitters field of the service (counting the nodes of a sibling kind gives a wrong "all answered")
+		{
+			seen := map[string]bool{}
+			for _, f := range []*ssa.Function{E, W} {
+				for _, wf := range core.WithClosures(f) {
+					core.EachInstr(wf, func(in ssa.Instruction) {
+						if fa, ok := in.(*ssa.FieldAddr); ok {
+							if id, _, ok := core.FieldOfAddr(fa); ok && strings.HasSuffix(id.Name, "Submitters") && strings.HasSuffix(id.Owner, ".Service") {
+								seen[id.Name] = true
+							}
+						}
+					})
+				}
+			}
+			var fl []string
+			for k := range seen {
+				fl = append(fl, k)
+			}
+			sort.Strings(fl)
+			r.Check(len(fl) <= 1, "C08.n", base+"|one-node-set", p.Pos(E.Pos()), "the submission refers to one set of nodes: "+strings.Join(fl, ","), "the submission refers to the node sets of several kinds ("+strings.Join(fl, ", ")+"): a count or range over a sibling's nodes decides about this kind's submission")
+		}
 		// payload parameter: the entry parameter (not ctx) that is passed to the worker
 		var payload *ssa.Parameter
 		payloadArgIdx := -1
